@@ -55,7 +55,7 @@ fn slot_case(rng: &mut Rng, out: &mut CaseOut, multiround: bool) {
         5..=7 => Class::Small,
         _ => Class::Edge,
     };
-    let (k, r) = gen::config(rng, class, rate);
+    let (mut k, mut r) = gen::config(rng, class, rate);
     if k.max(r) > 600 {
         // keep per-slot re-encoding affordable
         return;
@@ -95,7 +95,18 @@ fn slot_case(rng: &mut Rng, out: &mut CaseOut, multiround: bool) {
                 // same size again, no reset: dropping the result started the new round
                 out.tag("round-after-implicit-reset");
             } else {
+                let prev = size;
                 size = pick_size(rng);
+                // a third of the resets: the same payload in another shape
+                // (f times the shards of a f-th of the blocks, or the reverse)
+                if rng.chance(1, 3) {
+                    if let Some((k2, r2, s2)) = gen::reshape(rng, rate, k, r, prev) {
+                        if k2.max(r2) <= 600 {
+                            (k, r, size) = (k2, r2, s2);
+                            out.tag("reset-reshapes");
+                        }
+                    }
+                }
                 if let Err(e) = enc.reset(k, r, size).and(dec.reset(k, r, size)) {
                     out.violate("C04:reset-failed", format!("k={k} r={r} size={size}: {e}"));
                     return;
